@@ -1151,9 +1151,10 @@ def run_c18(ctx):
     states = api_histories(ctx, "API_add", pairs, ["add", "cfg_poly", "select"], 3, rules)
     cases = history_cases(ctx, states, [cat["CfgD"], cat["CfgG"], CfgN, CfgI, CfgA])
     cases = [c for c in cases if any(x["op"] == "add" for x in c["calls"])]
-    if q and len(cases) > 2500:
-        ctx.notes.append("quick tier replays a seeded sample of 2500 of the %d enumerated add histories" % len(cases))
-        cases = ctx.rng.sample(cases, 2500)
+    cap = 2500 if q else 12000
+    if len(cases) > cap:
+        ctx.notes.append("a seeded sample of %d of the %d enumerated add histories is replayed (every history is model-checked by TLC)" % (cap, len(cases)))
+        cases = ctx.rng.sample(cases, cap)
     run_histories(ctx, cases)
 
 # ------------------------------------------------------------------------------------------- EXTRA: behaviour beyond the listed properties
